@@ -147,6 +147,21 @@ class Harness:
         full = f"{self.udesc['prop']}.{self.udesc['name']}.{name}"
         self.ctx.obligations.append(Obligation(full, fs[:-1] + mul_axioms(fs), fs[-1], dict(kind="ensures", euf=True, orig=(list(self.ctx.pc), g), **meta)))
 
+    def debug_model(self, goal, items, timeout=30000):
+        """VERIF_DEBUG only: a model of  path condition /\ not goal  evaluated on the named terms (proof engineering aid)"""
+        if not os.environ.get("VERIF_DEBUG"):
+            return
+        sv = z3.Solver()
+        sv.set("timeout", timeout)
+        sv.add(*self.ctx.pc)
+        sv.add(z3.Not(goal))
+        r = sv.check()
+        print("DEBUG", r, flush=True)
+        if r == z3.sat:
+            m = sv.model()
+            for k, v in items.items():
+                print("   ", k, "=", m.eval(v, model_completion=True), flush=True)
+
     def lemma(self, name, goal, assumptions=()):
         """a standalone (context-free) lemma: proved from `assumptions` only, not from the path condition"""
         from .interp import Obligation
@@ -297,6 +312,26 @@ def _model_repr(model, syms):
     return out
 
 
+def _count_axioms(formulas):
+    """a cardinality symbol (frames.count_of) that occurs in the VC is >= 0"""
+    from . import frames as _fr
+
+    names = set()
+    stack, seen = list(formulas), set()
+    while stack:
+        t = stack.pop()
+        if t.get_id() in seen:
+            continue
+        seen.add(t.get_id())
+        if z3.is_quantifier(t):
+            stack.append(t.body())
+        elif z3.is_app(t):
+            if t.num_args() == 0 and t.decl().kind() == z3.Z3_OP_UNINTERPRETED and t.decl().name().startswith("cnt_"):
+                names.add(t.decl().name())
+            stack.extend(t.children())
+    return [c >= 0 for (c, _d) in _fr._COUNTS.values() if z3.is_const(c) and c.decl().name() in names]
+
+
 def run_unit(udesc, tier="quick", timeout_ms=None, known=None):
     """Execute a unit, discharge its obligations.  Returns a JSON-able dict."""
     t0 = time.time()
@@ -366,7 +401,7 @@ def run_unit(udesc, tier="quick", timeout_ms=None, known=None):
                 cr = discharge(list(ob.pc), min(timeout_ms, 10000))
                 covered_pcs[key] = cr["verdict"]
             rec["cover"] = covered_pcs[key]
-            ax = theory_np.axiom_instances(list(ob.pc) + [ob.goal])
+            ax = theory_np.axiom_instances(list(ob.pc) + [ob.goal]) + _count_axioms(list(ob.pc) + [ob.goal])
             if ax:
                 ob.pc = list(ob.pc) + ax
             res = discharge(list(ob.pc) + [z3.Not(ob.goal)], timeout_ms, both=both)
